@@ -18,6 +18,12 @@ let next t = if t.i >= Array.length t.a then failwith "eof" else (let x = t.a.(t
 let peek t = if t.i >= Array.length t.a then "" else t.a.(t.i)
 let next_int t = int_of_string (next t)
 let next_bool t = (next t = "1")
+(* `required` texts as f8c reads them ("1"/"0" are the generators' shorthand): fields and groups
+   `== "Y"`; component references through get_value<bool>: true / yes / y in any case, or 1 *)
+let req_fg t = (let x = next t in x = "1" || x = "Y")
+let req_comp t = (let x = String.lowercase_ascii (next t) in x = "1" || x = "true" || x = "yes" || x = "y")
+(* msgcat % "admin": case-insensitive *)
+let is_admin_tok x = (x = "1" || String.lowercase_ascii x = "admin")
 let expect t s = let x = next t in if x <> s then failwith ("expected " ^ s ^ " got " ^ x)
 let rec times k f = if k <= 0 then [] else (let x = f () in x :: times (k - 1) f)
 
@@ -26,9 +32,9 @@ let rec p_items t : item list =
   let k = next_int t in
   times k (fun () ->
     match next t with
-    | "f" -> let nm = next t in let r = next_bool t in IField (bytes_of_str nm, r)
-    | "g" -> let nm = next t in let r = next_bool t in let sub = p_items t in IGroup (bytes_of_str nm, r, sub)
-    | "c" -> let nm = next t in let r = next_bool t in IComp (bytes_of_str nm, r)
+    | "f" -> let nm = next t in let r = req_fg t in IField (bytes_of_str nm, r)
+    | "g" -> let nm = next t in let r = req_fg t in let sub = p_items t in IGroup (bytes_of_str nm, r, sub)
+    | "c" -> let nm = next t in let r = req_comp t in IComp (bytes_of_str nm, r)
     | x -> failwith ("item " ^ x))
 
 let p_schema (s : string) : schema =
@@ -52,7 +58,7 @@ let p_schema (s : string) : schema =
   let nm = next_int t in
   let msgs = times nm (fun () ->
     expect t "M";
-    let name = next t in let mt = next t in let adm = next_bool t in let its = p_items t in
+    let name = next t in let mt = next t in let adm = is_admin_tok (next t) in let its = p_items t in
     { md_name = bytes_of_str name; md_type = bytes_of_str mt; md_admin = adm; md_items = its }) in
   { s_type = bytes_of_str ty; s_major = bytes_of_str ma; s_minor = bytes_of_str mi; s_rev = bytes_of_str rv;
     s_fields = fields; s_comps = comps; s_header = h; s_trailer = tr; s_msgs = msgs }
